@@ -157,7 +157,9 @@ func consumerReads(r *Run, cg *CallGraph, consumers []*packages.Package) map[*ty
 func checkEmitterCoverage(r *Run, rule string) {
 	model := r.MustPkg("cypher/models/cypher")
 	emit := r.MustPkg("cypher/models/cypher/format")
-	cg := BuildCallGraph(r, func(p string) bool { return strings.Contains(p, "/cypher/models/cypher") || strings.HasSuffix(p, "/graph") })
+	cg := BuildCallGraph(r, func(p string) bool {
+		return strings.Contains(p, "/cypher/models/cypher") || strings.HasSuffix(p, "/graph")
+	})
 	reads := consumerReads(r, cg, []*packages.Package{emit})
 	mentioned := typesMentioned(emit, model.Types)
 	exempt := r.LoadTable("c07_emitter_exempt")
